@@ -116,7 +116,7 @@ int main(void)
             sscanf(line + 1, "%d %zu %zu", &k, &st, &sp);
             for (int i = 0; i < MAXSHEP; i++) logs[i].n = 0;
             active = 0;
-            alarm(20);
+            alarm(120);
             switch (k) {
                 case 0: qarray_iter(A, st, sp, cb_elem); break;
                 case 1: qarray_iter_loop(A, st, sp, cb_loop, NULL); break;
